@@ -317,7 +317,12 @@ func (ck *checker) lookups(rng *lib.Rng, nHashes int) []getCase {
 				}
 			}
 			if got != ref || inc != (ref >= 0) {
-				ck.violate("hash-get", fmt.Sprintf("%s: Get(%s) finds entry %d, IncludesKey = %v, but the entry with an equal key is %d (-1: none)", hd, q.d, got, inc, ref), hd, q.d)
+				// known finding: the probe is an Object type / TypeSet (identity key) equal to a key of the hash that is not found
+				var kf []string
+				if ref >= 0 && identityKey(q.key) && identityKey(items[ks[ref]].key) {
+					kf = []string{"kf:object-type-key-by-identity"}
+				}
+				ck.violateT("hash-get", fmt.Sprintf("%s: Get(%s) finds entry %d, IncludesKey = %v, but the entry with an equal key is %d (-1: none)", hd, q.d, got, inc, ref), kf, hd, q.d)
 			}
 			if ref >= 0 {
 				ck.res.Nontrivial("get " + hd.String() + " " + q.text)
@@ -415,7 +420,27 @@ func (ck *checker) uniques(rng *lib.Rng, n int) []uniqueCase {
 				for i, g := range got {
 					gs[i] = g.String()
 				}
-				ck.violate("unique", fmt.Sprintf("%s of %v keeps %v; the first of every equality class is at positions %v", name, ds, gs, ref), ds...)
+				// known finding: the only difference is that equal Object types / TypeSets (identity keys) are all kept
+				var kf []string
+				var gotRest, refRest []px.Value
+				for _, g := range got {
+					if !identityKey(string(px.ToKey(g))) {
+						gotRest = append(gotRest, g)
+					}
+				}
+				for _, i := range ref {
+					if !identityKey(string(px.ToKey(vs[i]))) {
+						refRest = append(refRest, vs[i])
+					}
+				}
+				same := len(gotRest) == len(refRest) && len(gotRest) < len(got)
+				for i := 0; same && i < len(refRest); i++ {
+					same = sameValue(gotRest[i], refRest[i])
+				}
+				if same {
+					kf = []string{"kf:object-type-key-by-identity"}
+				}
+				ck.violateT("unique", fmt.Sprintf("%s of %v keeps %v; the first of every equality class is at positions %v", name, ds, gs, ref), kf, ds...)
 			}
 		}
 		var u []px.Value
